@@ -14,5 +14,6 @@ git worktree remove --force /work/$ID/verif
 git -C /repo worktree remove --force /work/$ID/repo
 git branch -D $id; git -C /repo branch -D $id
 rm -rf /work/$ID
+(cd harness && GOFLAGS=-mod=mod go mod edit -replace github.com/sarchlab/mgpusim/v4=/repo)
 python3 gen_main.py
 echo merged $ID
